@@ -373,7 +373,7 @@ func (cl *cluster) key() string {
 		}
 		fmt.Fprintf(&b, "CB replicas=%v ro=%v fe=%v signals=%v clonestatus=%s cloneof=%d\n", vB.Replicas, vB.ReadOnly, vB.FrontendUp, cl.signalsB, st, cl.cloneOf)
 	}
-	fmt.Fprintf(&b, "M writes=%v snaps=%d adds=%d restarts=%d regs=%d reads=%d faults=%d lastsig=%+v\n", ack, cl.nSnaps, cl.nAdds, cl.nRestart, cl.nRegs, cl.nReads, cl.nFaults*10+cl.nResizes, cl.lastStartSignal())
+	fmt.Fprintf(&b, "M writes=%v snaps=%d adds=%d restarts=%d regs=%d reads=%d faults=%d lastsig=%+v\n", ack, cl.nSnaps, cl.nAdds, cl.nRestart, cl.nRegs, cl.nReads, cl.nFaults*100+cl.nResizes*10+cl.nTicks, cl.lastStartSignal())
 	h := sha1.Sum([]byte(b.String()))
 	cl.lastKeyText = b.String()
 	return fmt.Sprintf("%x", h[:12])
@@ -578,6 +578,20 @@ func (cl *cluster) enabled() []string {
 			for _, m := range subsets(nonErr) {
 				if faultsLeft(m) {
 					out = append(out, fmt.Sprintf("Resize:grow:%d", m))
+				}
+			}
+		case "Tick", "TickF":
+			if cl.nTicks >= 3 || (t == "TickF" && !faultsLeft(1)) {
+				continue
+			}
+			var ns []int
+			for n := range cl.cleanerTick {
+				ns = append(ns, n)
+			}
+			sort.Ints(ns)
+			for _, n := range ns {
+				if _, ok := attached[n]; ok {
+					out = append(out, fmt.Sprintf("%s:%d", t, n))
 				}
 			}
 		case "DelSnap":
